@@ -6,6 +6,7 @@
    the cut lemma covers a partially written final record.  That real runs under injected faults
    behave like this is established by the fault-injection tie (checks/c12.py), not by proof. *)
 From LCDB Require Import Base LogFormat LogFormatClosed FsModel FsProofs.
+Local Open Scope N_scope.
 
 Theorem C12_partial_append_is_a_clean_cut : forall rs n,
   Forall (fun r => wf_bytes r = true) rs -> (n <= length (write_log rs))%nat ->
